@@ -306,8 +306,8 @@ func Array[V any](arguments ...any) col.ArrayLike[V] {
 		var iterator = collection.GetIterator()
 		for iterator.HasNext() {
 			var value = iterator.GetNext().(V)
+			index++ // Indices are ORDINAL based.
 			array.SetValue(index, value)
-			index++
 		}
 	default:
 		panic("The constructor for an array requires an argument.")
